@@ -554,6 +554,30 @@ pub fn c02() -> Outcome {
         if let Err(e) = check("scalar multiple (2.5 * a)", &(2.5 * a.clone()), a, None, &|x, _| 2.5 * x) { fail!(n, d, "{e}"); }
         if let Err(e) = check("scalar multiple (a * -0.5)", &(a.clone() * -0.5), a, None, &|x, _| -0.5 * x) { fail!(n, d, "{e}"); }
         if let Err(e) = check("scalar sum (a + 1.5)", &(a.clone() + 1.5), a, None, &|x, _| x + 1.5) { fail!(n, d, "{e}"); }
+        // typed operators with an f64 on either side (every impl of linear.rs / quadratic.rs / polynomial.rs, incl. the macro-generated ones)
+        match a.function.clone().unwrap() {
+            F::Linear(x) => {
+                if let Err(e) = check("Linear - f64", &Function::from(x.clone() - 1.5), a, None, &|p, _| p - 1.5) { fail!(n, d, "{e}"); }
+                if let Err(e) = check("Linear + f64", &Function::from(x.clone() + 1.5), a, None, &|p, _| p + 1.5) { fail!(n, d, "{e}"); }
+                if let Err(e) = check("f64 + Linear", &Function::from(1.5 + x.clone()), a, None, &|p, _| 1.5 + p) { fail!(n, d, "{e}"); }
+                if let Err(e) = check("f64 * Linear", &Function::from(-2.0 * x.clone()), a, None, &|p, _| -2.0 * p) { fail!(n, d, "{e}"); }
+                if let Err(e) = check("-Linear", &Function::from(-x.clone()), a, None, &|p, _| -p) { fail!(n, d, "{e}"); }
+            }
+            F::Quadratic(x) => {
+                if let Err(e) = check("Quadratic - f64", &Function::from(x.clone() - 1.5), a, None, &|p, _| p - 1.5) { fail!(n, d, "{e}"); }
+                if let Err(e) = check("Quadratic + f64", &Function::from(x.clone() + 1.5), a, None, &|p, _| p + 1.5) { fail!(n, d, "{e}"); }
+                if let Err(e) = check("f64 + Quadratic", &Function::from(1.5 + x.clone()), a, None, &|p, _| 1.5 + p) { fail!(n, d, "{e}"); }
+                if let Err(e) = check("f64 * Quadratic", &Function::from(-2.0 * x.clone()), a, None, &|p, _| -2.0 * p) { fail!(n, d, "{e}"); }
+                if let Err(e) = check("-Quadratic", &Function::from(-x.clone()), a, None, &|p, _| -p) { fail!(n, d, "{e}"); }
+            }
+            F::Polynomial(x) => {
+                if let Err(e) = check("Polynomial + f64", &Function::from(x.clone() + 1.5), a, None, &|p, _| p + 1.5) { fail!(n, d, "{e}"); }
+                if let Err(e) = check("f64 + Polynomial", &Function::from(1.5 + x.clone()), a, None, &|p, _| 1.5 + p) { fail!(n, d, "{e}"); }
+                if let Err(e) = check("f64 * Polynomial", &Function::from(-2.0 * x.clone()), a, None, &|p, _| -2.0 * p) { fail!(n, d, "{e}"); }
+                if let Err(e) = check("-Polynomial", &Function::from(-x.clone()), a, None, &|p, _| -p) { fail!(n, d, "{e}"); }
+            }
+            _ => {}
+        }
         for (bi, b) in ops.iter().enumerate() {
             n += 1; d.insert((ai, bi));
             if ai == 3 && bi == 5 { note(|| format!("a + b, a - b, a * b, b * a for a={a:?} b={b:?}")); }
@@ -568,26 +592,36 @@ pub fn c02() -> Outcome {
             // typed leaves
             match (a.function.clone().unwrap(), b.function.clone().unwrap()) {
                 (F::Linear(x), F::Linear(y)) => {
+                    if let Err(e) = check("Linear - Linear", &Function::from(x.clone() - y.clone()), a, Some(b), &|p, q| p - q) { fail!(n, d, "{e}"); }
                     if let Err(e) = check("Linear + Linear", &Function::from(x.clone() + y.clone()), a, Some(b), &|p, q| p + q) { fail!(n, d, "{e}"); }
                     if let Err(e) = check("Linear * Linear", &Function::from(x * y), a, Some(b), &|p, q| p * q) { fail!(n, d, "{e}"); }
                 }
                 (F::Quadratic(x), F::Linear(y)) => {
+                    if let Err(e) = check("Quadratic - Linear", &Function::from(x.clone() - y.clone()), a, Some(b), &|p, q| p - q) { fail!(n, d, "{e}"); }
+                    if let Err(e) = check("Linear + Quadratic", &Function::from(y.clone() + x.clone()), a, Some(b), &|p, q| p + q) { fail!(n, d, "{e}"); }
+                    if let Err(e) = check("Linear * Quadratic", &Function::from(y.clone() * x.clone()), a, Some(b), &|p, q| p * q) { fail!(n, d, "{e}"); }
                     if let Err(e) = check("Quadratic + Linear", &Function::from(x.clone() + y.clone()), a, Some(b), &|p, q| p + q) { fail!(n, d, "{e}"); }
                     if let Err(e) = check("Quadratic * Linear", &Function::from(x * y), a, Some(b), &|p, q| p * q) { fail!(n, d, "{e}"); }
                 }
                 (F::Quadratic(x), F::Quadratic(y)) => {
+                    if let Err(e) = check("Quadratic - Quadratic", &Function::from(x.clone() - y.clone()), a, Some(b), &|p, q| p - q) { fail!(n, d, "{e}"); }
                     if let Err(e) = check("Quadratic + Quadratic", &Function::from(x.clone() + y.clone()), a, Some(b), &|p, q| p + q) { fail!(n, d, "{e}"); }
                     if let Err(e) = check("Quadratic * Quadratic", &Function::from(x * y), a, Some(b), &|p, q| p * q) { fail!(n, d, "{e}"); }
                 }
                 (F::Polynomial(x), F::Linear(y)) => {
+                    if let Err(e) = check("Linear + Polynomial", &Function::from(y.clone() + x.clone()), a, Some(b), &|p, q| p + q) { fail!(n, d, "{e}"); }
+                    if deg(a) + deg(b) <= 6 { if let Err(e) = check("Linear * Polynomial", &Function::from(y.clone() * x.clone()), a, Some(b), &|p, q| p * q) { fail!(n, d, "{e}"); } }
                     if let Err(e) = check("Polynomial + Linear", &Function::from(x.clone() + y.clone()), a, Some(b), &|p, q| p + q) { fail!(n, d, "{e}"); }
                     if let Err(e) = check("Polynomial * Linear", &Function::from(x * y), a, Some(b), &|p, q| p * q) { fail!(n, d, "{e}"); }
                 }
                 (F::Polynomial(x), F::Quadratic(y)) => {
+                    if let Err(e) = check("Quadratic + Polynomial", &Function::from(y.clone() + x.clone()), a, Some(b), &|p, q| p + q) { fail!(n, d, "{e}"); }
+                    if deg(a) + deg(b) <= 6 { if let Err(e) = check("Quadratic * Polynomial", &Function::from(y.clone() * x.clone()), a, Some(b), &|p, q| p * q) { fail!(n, d, "{e}"); } }
                     if let Err(e) = check("Polynomial + Quadratic", &Function::from(x.clone() + y.clone()), a, Some(b), &|p, q| p + q) { fail!(n, d, "{e}"); }
                     if let Err(e) = check("Polynomial * Quadratic", &Function::from(x * y), a, Some(b), &|p, q| p * q) { fail!(n, d, "{e}"); }
                 }
                 (F::Polynomial(x), F::Polynomial(y)) => {
+                    if let Err(e) = check("Polynomial - Polynomial", &Function::from(x.clone() - y.clone()), a, Some(b), &|p, q| p - q) { fail!(n, d, "{e}"); }
                     if let Err(e) = check("Polynomial + Polynomial", &Function::from(x.clone() + y.clone()), a, Some(b), &|p, q| p + q) { fail!(n, d, "{e}"); }
                     if let Err(e) = check("Polynomial * Polynomial", &Function::from(x * y), a, Some(b), &|p, q| p * q) { fail!(n, d, "{e}"); }
                 }
